@@ -85,9 +85,32 @@ COMBOS = [
 ]
 
 
+def history_case(cid, change, L):
+    body = f"""
+def make():
+    return Schema([Rule(('a', 'b'), Value.equal_to(t)), Rule(('s',), Value.equal_to(True), cast={{str: valida.casting.cast_string_to_bool}})])
+sch = make()
+doc = {{'a': {{'b': u1, 'p': u2}}, 's': 'true', 'n': '3', 'p': u2}}
+js1 = sch.to_json_like()
+ok = note('first serialisation round-trips', Schema.from_json_like(js1) == sch)
+{change}
+js2 = sch.to_json_like()
+back = Schema.from_json_like(js2)
+ok = ok and note('serialised again after the change: rebuilt equals the changed schema', back == sch and len(back) == len(sch))
+ok = ok and same('... and validates identically', summarize_validation(back.validate(doc)), summarize_validation(sch.validate(doc)))
+ok = ok and same('serialising twice gives the same data', tx(sch.to_json_like()), tx(js2))
+return ok
+"""
+    return mk_case(f"c13.history.{cid}", [("t", "int"), ("u1", UN), ("u2", "int")], body, pre=[f"BU({L}, t, u1, u2)"], stubs=["sym_repr"])
+
+
 def cases(ctx):
     L = 2 if ctx.quick else 3
     out = []
+    out.append(history_case("add_schema", "sch.add_schema(Schema([Rule(('p',), Value.greater_than(t), cast={str: int})]), DataPath('a'))", L))
+    out.append(history_case("add_schema.root", "sch.add_schema(Schema([Rule(('n',), Value.greater_than(t), cast={str: int})]), DataPath())", L))
+    out.append(history_case("rules_edited", "sch.rules = sch.rules[:1] + [Rule(('n',), Value.is_instance(int), cast={str: int})]", L))
+    out.append(history_case("rule_replaced", "sch.rules[0] = Rule(('n',), Value.not_equal_to(t), cast={str: int})", L))
     for n, names in enumerate(COMBOS):
         pairs = [(POOL[n % len(POOL)], POOL[(n + 1) % len(POOL)])] if ctx.quick else [(a, b) for a in POOL[:4] for b in POOL[1:5]]
         if not any("cast" in x for x in names) and not ctx.quick:
